@@ -76,9 +76,75 @@ fn nontrivial(i: &Value) -> bool {
         || t.contains("\"dst\"") || t.contains("\"left\"") || t.contains("\"t\":\"id\"") || t.contains("\"some\":{\"index\"")
 }
 
+fn expr_regions(e: &Value, out: &mut Vec<String>) {
+    match s(e, "t").as_str() {
+        "addr" => out.push(s(&e["m"], "name")),
+        "neg" | "pos" | "fn" => expr_regions(&e["e"], out),
+        "inf" => {
+            expr_regions(&e["l"], out);
+            expr_regions(&e["r"], out);
+        }
+        _ => {}
+    }
+}
+
+/// What the property demands, in Rust (semantics of each instruction kind written out).  Used only to judge the
+/// replay of a recorded history (a rejection of the trace validation); the primary oracle is MemAccess.tla.
+fn rule(i: &Value, sigs: &Value) -> Value {
+    let name = |v: &Value| s(v, "name");
+    let operand = |v: &Value| -> Vec<String> { if v["t"] == "mref" { vec![s(&v["m"], "name")] } else { vec![] } };
+    let mut exprs = vec![];
+    let (mut r, mut w, mut c): (Vec<String>, Vec<String>, Vec<String>) = (vec![], vec![], vec![]);
+    match s(i, "k").as_str() {
+        "Move" => { r = operand(&i["src"]); w = vec![name(&i["dst"])]; }
+        "Convert" => { r = vec![name(&i["src"])]; w = vec![name(&i["dst"])]; }
+        "Arith" | "Logic" => { r = operand(&i["src"]); r.push(name(&i["dst"])); w = vec![name(&i["dst"])]; }
+        "Unary" => { r = vec![name(&i["operand"])]; w = r.clone(); }
+        "Exchange" => { r = vec![name(&i["left"]), name(&i["right"])]; w = r.clone(); }
+        "Compare" => { r = operand(&i["rhs"]); r.push(name(&i["lhs"])); w = vec![name(&i["dst"])]; }
+        "Load" => { r = vec![s(i, "source"), name(&i["offset"])]; w = vec![name(&i["dst"])]; }
+        "Store" => { r = operand(&i["src"]); r.push(name(&i["offset"])); w = vec![s(i, "destination")]; }
+        "JumpWhen" | "JumpUnless" => r = vec![name(&i["cond"])],
+        "Delay" | "RawCapture" => exprs.push(i["duration"].clone()),
+        "SetPhase" | "SetScale" | "ShiftPhase" | "SetFrequency" | "ShiftFrequency" => exprs.push(i["e"].clone()),
+        "Pulse" | "Capture" => exprs.extend(i["wf"].as_array().unwrap().iter().cloned()),
+        "Gate" => exprs.extend(i["params"].as_array().unwrap().iter().cloned()),
+        "Call" => {
+            let sg = &sigs[s(i, "name")];
+            let off = sg["ret"].as_bool().unwrap() as usize;
+            for (k, a) in i["args"].as_array().unwrap().iter().enumerate() {
+                let region = match s(a, "t").as_str() { "id" => s(a, "s"), "mref" => s(&a["m"], "name"), _ => continue };
+                r.push(region.clone());
+                if (off == 1 && k == 0) || (k >= off && sg["params"][k - off]["mut"].as_bool().unwrap_or(false)) {
+                    w.push(region);
+                }
+            }
+        }
+        _ => {}
+    }
+    for e in &exprs {
+        expr_regions(e, &mut r);
+    }
+    match s(i, "k").as_str() {
+        "Capture" | "RawCapture" => c.push(name(&i["mref"])),
+        "Measure" => if let Some(m) = i["target"].get("some") { c.push(name(m)) },
+        _ => {}
+    }
+    for v in [&mut r, &mut w, &mut c] {
+        v.sort();
+        v.dedup();
+    }
+    json!({"reads": r, "writes": w, "captures": c})
+}
+
 pub fn replay(_ctx: &Ctx, case: &Value) -> Outcome {
+    // a violation replay file from trace validation carries the recorded history: re-run it, judged by `rule`
     let case = match case.get("history") {
-        Some(h) => h.as_array().and_then(|a| a.iter().find(|e| e["ev"] == "acc")).cloned().unwrap_or(Value::Null),
+        Some(h) => {
+            let mut e = h.as_array().and_then(|a| a.iter().find(|e| e["ev"] == "acc")).cloned().unwrap_or(Value::Null);
+            e["want"] = rule(&e["instr"], &e["sigs"]);
+            e
+        }
         None => case.clone(),
     };
     let i = real_instr(&case["instr"]);
